@@ -292,6 +292,29 @@ def relto_checks(ctx, c, rep, rdclass, rdtype, tname, text, origin):
     return True
 
 
+def raw_control_in(text, style):
+    """None, or a description of the first raw control character of a printed rdata text"""
+    allowed = set(style.hex_chunk_separator) | set(style.base64_chunk_separator) | {" "}
+    inq = False
+    esc = False
+    for ch in text:
+        if esc:
+            esc = False
+            continue
+        if ch == "\\":
+            esc = True
+            continue
+        if ch == '"':
+            inq = not inq
+            continue
+        o = ord(ch)
+        if o < 0x20 and not (not inq and ch in allowed):
+            return f"U+{o:04X} {'inside' if inq else 'outside'} quotes"
+        if o == 0x7F and not inq:
+            return "U+007F outside quotes"
+    return None
+
+
 def to_text_route_checks(ctx, c, rep, tname, rd, st, style, text):
     """`Rdata.to_text(origin, relativize, **kw)` builds the style from keywords: the same text as to_styled_text(style),
     and the legacy `chunksize` keyword sets both chunk sizes.  False = a failure was reported."""
@@ -510,6 +533,13 @@ def eval_rt(ctx: Ctx, c: dict):
     if text is None:
         return
     c["_text"] = text  # for the replay file only
+    # --- the printed text carries no raw control octet: everything below 0x20 (and DEL outside quotes) is escaped, except
+    # the blanks of the style's own chunk separators
+    bad = raw_control_in(text, style)
+    if bad is not None:
+        _fail(ctx, f"C05/to_text/raw-control-octet/{tname}",
+              f"{tname}: value from wire {wire.hex()} prints as {text!r}: raw {bad} in the text", rep)
+        return
     # --- a text printed with (origin, relativize=False) is self-contained: read without any origin it has no relative
     # name left and denotes the value derelativized against that origin
     if style.origin is not None and not style.relativize and tname in NAME_TYPES:
@@ -1256,13 +1286,14 @@ MISC_ATOMS = ["0123456789abcdefghijklmnopqrstuv", "2t7b4g4vsa5smi47k61mv5bv1a22b
               "alpn=h2", 'alpn="h2,h3"', "port=53", "no-default-alpn", "key65280=abc", "mandatory=alpn", "20240101000000", "1700000000"]
 ALL_ATOMS = NUM_ATOMS + STR_ATOMS + NAME_ATOMS + BLOB_ATOMS + ADDR_ATOMS + MISC_ATOMS
 ESC_POOL = ["\\032", "\\009", "\\010", "\\059", "\\040", "\\041", "\\034", "\\092", "\\000", "\\127", "\\200", "\\255", "\\ ", "\\;", "\\(", '\\"', "\\\\", "\\."]
+EDGE_ESC = ["\\010", "\\010", "\\013", "\\009", "\\032", "\\000", "\\127", "\\011", "\\012", "\\031", "\\133", "\\160"]
 CHAR_POOL = ['"', "\\", " ", "\t", ";", "(", ")", "\n", ".", "@", "0", "9", "a", "Z", "\x00", "\x7f", "\xe9", "=", ",", "-", "+", "_", ":", "/", "!"]
 
 
 def mutate_text(rng, text):
     toks = text.split(" ")
     for _ in range(rng.choice([1, 1, 1, 2, 3])):
-        m = rng.below(9)
+        m = rng.below(11)
         i = rng.below(len(toks)) if toks else 0
         if m == 0 and toks:
             toks[i] = rng.choice(ALL_ATOMS)
@@ -1289,6 +1320,11 @@ def mutate_text(rng, text):
             t = toks[i]
             j = rng.below(len(t) + 1)
             toks[i] = t[:j] + rng.choice(ESC_POOL) + t[j:]
+        elif m >= 9 and toks:
+            # an escaped blank / control octet at the very end (or start) of a token: validators anchored with `$`,
+            # strip() and split() treat such an octet specially; printers may emit it raw
+            e = rng.choice(EDGE_ESC)
+            toks[i] = toks[i] + e if m == 9 or not toks[i] else e + toks[i]
         elif m == 8 and toks and toks[i]:
             # spell one character as \DDD (Latin-1 only)
             t = toks[i]
